@@ -993,13 +993,13 @@ class Constraints:
 
     @classmethod
     def gt(cls, value, gt):
-        if value <= gt:
+        if not value > gt:
             raise ValueError
         return value
 
     @classmethod
     def ge(cls, value, ge):
-        if value < ge:
+        if not value >= ge:
             raise ValueError
         return value
 
@@ -1011,13 +1011,13 @@ class Constraints:
 
     @classmethod
     def lt(cls, value, lt):
-        if value >= lt:
+        if not value < lt:
             raise ValueError
         return value
 
     @classmethod
     def le(cls, value, le):
-        if value > le:
+        if not value <= le:
             raise ValueError
         return value
 
